@@ -1,4 +1,4 @@
-import IncrVerif.Engine.Core
+import IncrVerif.Engine.Expert
 /-!
 # Engine model: recompute, var writes, observers, handlers, stabilise
 -/
@@ -87,6 +87,12 @@ def elabInstr (loc : List Nat) (lhsVal : Val) (i : Instr) : M (Option Nat) := do
     let n ← res n
     modNode n fun x => { x with cutoff := c }
     pure none
+  | .expert f => do
+    let e := (← get).experts.size
+    modify fun s => { s with experts := s.experts.push { f := f } }
+    let n ← createNode (.expert e) sc
+    modExpert e fun x => { x with node := n }
+    pure (some n)
 
 def elabTemplate (t : Template) (lhsVal : Val) : M Nat := do
   let mut loc : List Nat := []
@@ -322,16 +328,59 @@ def maybeChangeValue (env : Env) (fuel n : Nat) (new : Val) : M (Option Nat) := 
   modNode n fun x => { x with value := some new }
   maybeChangeValueManual env fuel n old shouldChange true
 
-def runEffects (env : Env) (effs : List Effect) : M Unit := do
+/-- the expert record of a node, also when the node is invalid -/
+def expertIdxRaw (n : Nat) : M (Option Nat) := do
+  match (← getNode n).kind with
+  | .expert e => pure (some e)
+  | _ => pure none
+
+/-- effects of a user closure; `arg` is the integer view of the closure's first argument
+(selects the target in the join/bind patterns) -/
+def runEffects (env : Env) (fuel : Nat) (effs : List Effect) (arg : Int := 0) : M Unit := do
   for e in effs do
     match e with
     | .stabilise =>
       -- nested stabilise: the status assertion of `stabilise_debug`
       assertM ((← get).status == .notStabilising) "state:stabilise:status"
+    | .xAdd e child cb => do
+      let n ← resolveOpnd [] e
+      let c ← resolveOpnd [] child
+      let dep ← expertAddDependency env fuel n c cb
+      match ← expertIdxRaw n with
+      | some ei => modExpert ei fun x => { x with script := x.script ++ [dep] }
+      | none => pure ()
+    | .xRm e i => do
+      let n ← resolveOpnd [] e
+      match ← expertIdxRaw n with
+      | none => pure ()
+      | some ei =>
+        let sc := (← getExpert ei).script
+        if sc.length > 0 then
+          let dep := sc[i % sc.length]?.getD 0
+          modExpert ei fun x => { x with script := x.script.filter (· != dep) }
+          expertRemoveDependency fuel n dep
+    | .xSel e cb always targets => do
+      let n ← resolveOpnd [] e
+      match ← expertIdxRaw n with
+      | none => pure ()
+      | some ei =>
+        if targets.length > 0 then
+          let t ← resolveOpnd [] (targets[(arg % (targets.length : Int)).toNat]?.getD (.abs 0))
+          let prev := (← getExpert ei).sel
+          let same := match prev with | some (_, c) => c == t | none => false
+          if always || !same then
+            let dep ← expertAddDependency env fuel n t cb
+            match prev with
+            | some (d, _) => expertRemoveDependency fuel n d
+            | none => pure ()
+            modExpert ei fun x => { x with sel := some (dep, t) }
+    | .xStale e => do expertMakeStale (← resolveOpnd [] e)
+    | .xInval e => do expertInvalidate fuel (← resolveOpnd [] e)
     | _ => runEffectBasic env e
 
 /-- `recompute_one` -/
 def recomputeOne (env : Env) (fuel n : Nat) : M (Option Nat) := do
+  if (← get).cfg.debug then modify fun s => { s with currentlyRunning := some n }
   bumpCounter fun c => { c with recomputed := c.recomputed + 1 }
   let now := (← get).stabNum
   modNode n fun x => { x with recomputedAt := now }
@@ -341,7 +390,7 @@ def recomputeOne (env : Env) (fuel n : Nat) : M (Option Nat) := do
   | some (.map f args) =>
     let vals ← args.mapM fun a => valueUnwrap env a "node:recompute_one:child-value"
     if f < fnZip then
-      runEffects env (env.fnEff f vals)
+      runEffects env fuel (env.fnEff f vals) ((vals.headD .unit).toInt)
       let v := env.fn f vals
       logEv (.inv s!"f{f}" n vals v.render)
       maybeChangeValue env fuel n v
@@ -400,7 +449,27 @@ def recomputeOne (env : Env) (fuel n : Nat) : M (Option Nat) := do
         invalidateNode fuel n
         propagateInvalidity fuel
         pure none
-  | some (.expert _) => panic "model:expert-not-ported-yet"
+  | some (.expert e) =>
+    -- before_main_computation
+    if (← getExpert e).numInvalidChildren > 0 then
+      invalidateNode fuel n
+      propagateInvalidity fuel
+      pure none
+    else
+      let fire := (← getExpert e).willFireAllCallbacks
+      modExpert e fun x => { x with forceStale := false, willFireAllCallbacks := false }
+      if fire then
+        for edge in (← getExpert e).children do edgeOnChange env e edge
+      let er ← getExpert e
+      let s ← get
+      let depVals := er.children.map fun edge => s.value env edge.child
+      let slotVals := er.children.map fun edge =>
+        match edge.cb with
+        | some _ => er.slots.lookup edge.dep
+        | none => none
+      let v := env.expertFn er.f depVals slotVals
+      logEv (.inv s!"x{er.f}" n [] v.render)
+      maybeChangeValue env fuel n v
 
 /-- `recompute`: the direct-recompute chain -/
 def recompute (env : Env) : Nat → Nat → M Unit
@@ -470,7 +539,7 @@ def NodeUpdate.toPrev : NodeUpdate → Previously
   | .invalidated => .invalidated | .unnecessary => .unnecessary
 
 /-- run the handlers of one observer (`run_all`) -/
-def runAll (env : Env) (o n : Nat) (nu : NodeUpdate) (now : Int) : M Unit := do
+def runAll (env : Env) (fuel : Nat) (o n : Nat) (nu : NodeUpdate) (now : Int) : M Unit := do
   let hs := (← getObs o).handlers
   for h in hs do
     match (← getObs o).state with
@@ -489,11 +558,11 @@ def runAll (env : Env) (o n : Nat) (nu : NodeUpdate) (now : Int) : M Unit := do
             | .invalidated => pure Update.invalidated
             | .unnecessary => panic "public:subscription-got-unnecessary"
           logEv (.notif h.token upd)
-          runEffects env (env.handler h.hid upd)
+          runEffects env fuel (env.handler h.hid upd)
 
 /-- `stabilise_end` -/
 def stabiliseEnd (env : Env) (fuel : Nat) : M Unit := do
-  modify fun s => { s with stabNum := s.stabNum + 1 }
+  modify fun s => { s with stabNum := s.stabNum + 1, currentlyRunning := none }
   -- set_during_stabilisation (stack)
   let stack := (← get).setDuringStab
   modify fun s => { s with setDuringStab := [] }
@@ -518,8 +587,7 @@ def stabiliseEnd (env : Env) (fuel : Nat) : M Unit := do
   let now := (← get).stabNum
   for (n, nu) in queue do
     for o in (← getNode n).observers do
-      runAll env o n nu now
-  let _ := fuel
+      runAll env fuel o n nu now
   modify fun s => { s with status := .notStabilising }
 
 def drainHeap (env : Env) : Nat → M Unit
